@@ -88,13 +88,37 @@ def parseCfg (kvs : List String) : OCfg × OEnv × Nat :=
       else if k == "broadcast" then ({ c with broadcast := v == "1" }, e, ev)
       else if k == "selfaddr" then (c, { e with selfaddr := v == "1" }, ev)
       else if k == "maxctl" then ({ c with maxctl := (optNat v).getD none }, e, ev)
-      else if k == "evmax" then (c, e, n)
+      else if k == "evmax" then (c, e, DbM.legacyEv n + ev / 65536 ^ 8 * 65536 ^ 8)
+      else if k == "evcfg" then
+        -- per-type maxima in the order of `enum Event`
+        let ds := (v.splitOn ",").map fun x => x.toNat?.getD 0
+        (c, e, DbM.evCfgToNat (DbM.TyVec.ofFn fun t => ds.getD (DbM.tyIdx t) 0) + ev / 65536 ^ 8 * 65536 ^ 8)
+      else if k == "czero" then
+        -- class-zero mask, bit i = type i enabled: stored as the flips of the default configuration
+        let flips := (List.range 8).foldl (fun acc i =>
+          acc + (if (n / 2 ^ i % 2 == 1) != Gen.DbT.classZeroDefault (DbM.tyOfIdx i) then 2 ^ i else 0)) 0
+        (c, e, ev % 65536 ^ 8 + flips * 65536 ^ 8)
       else p
-    | _ => p) ({}, {}, 10)
+    | _ => p) ({}, {}, DbM.legacyEv 10)
 
 def parseInt (s : String) : Option Int :=
   if s.startsWith "-" then (s.drop 1).toString.toNat?.map (fun n => -(n : Int)) else s.toNat?.map (fun n => (n : Int))
 
+def ptOfCode (s : String) : Option PtType :=
+  if s == "bin" then some .binary else if s == "dbl" then some .doubleBitBinary
+  else if s == "bos" then some .binaryOutputStatus else if s == "ctr" then some .counter
+  else if s == "frz" then some .frozenCounter else if s == "an" then some .analog
+  else if s == "aos" then some .analogOutputStatus else if s == "os" then some .octetString else none
+
+/-- an item of another type, or with `UpdateOptions` other than the default, travels through `.an` with
+    the type and the options in the index (`DbM.encodeIdxOpts`, `DbM.decodeUpd`), an octet string's octets
+    (hex) as a number -/
+def encItem (ty : PtType) (idx : Nat) (v : String) (flags t : Nat) (o : DbM.UpdOpts) : Option TxnItem :=
+  match ty with
+  | .octetString => (parseHex v).map fun bs => .an (DbM.encodeIdxOpts ty idx o) (DbM.natOfOctets bs) flags t
+  | _ => (parseInt v).map fun v => .an (DbM.encodeIdxOpts ty idx o) v flags t
+
+/-- `<type>:<idx>:<value>:<flags>:<time>[:<opts>]`; plain `bin` / `an` items are the session model's own -/
 def parseTxnItem (s : String) : Option TxnItem :=
   match s.splitOn ":" with
   | [k, idx, v, flags, time] =>
@@ -102,10 +126,14 @@ def parseTxnItem (s : String) : Option TxnItem :=
     | some idx, some flags =>
       let t := time.toNat?.getD 0
       if k == "bin" then some (.bin idx (v == "1") flags t)
-      else match parseInt v with
-        | some v => some (.an idx v flags t)
-        | none => none
+      else if k == "an" then (parseInt v).map fun v => .an idx v flags t
+      else (ptOfCode k).bind fun ty => encItem ty idx v flags t {}
     | _, _ => none
+  | [k, idx, v, flags, time, opts] =>
+    match idx.toNat?, flags.toNat?, opts.toNat? with
+    | some idx, some flags, some opts =>
+      (ptOfCode k).bind fun ty => encItem ty idx v flags (time.toNat?.getD 0) (DbM.optsOfCode opts)
+    | _, _, _ => none
   | _ => none
 
 def outstationStep (o : OSt) (line : String) : OSt × List String :=
@@ -119,7 +147,7 @@ def outstationStep (o : OSt) (line : String) : OSt × List String :=
   | ["addmany", kind, start, count, cls] =>
     match o.st, start.toNat?, count.toNat?, cls.toNat? with
     | some s, some start, some count, some cls =>
-      let t := if kind == "bin" then PtType.binary else .analog
+      let t := (ptOfCode kind).getD .analog
       -- the same as `count` successive `add` inputs; only the last one's wake-up matters
       let (s, okN, outs) := (List.range count).foldl (fun (p : OState × Nat × List OOut) i =>
         let (s', o') := Outstation.step o.env p.1 (.add t (start + i) cls)
@@ -150,6 +178,11 @@ def outstationStep (o : OSt) (line : String) : OSt × List String :=
           | some i, some c => some (.add .binary i c) | _, _ => none
         | "addan", [idx, cls] => match idx.toNat?, cls.toNat? with
           | some i, some c => some (.add .analog i c) | _, _ => none
+        | "add", [ty, idx, cls] => match ptOfCode ty, idx.toNat?, cls.toNat? with
+          | some t, some i, some c => some (.add t i c) | _, _, _ => none
+        -- a point with a dead-band: it travels in front of the index (`Db.add`)
+        | "add", [ty, idx, cls, dbd] => match ptOfCode ty, idx.toNat?, cls.toNat?, dbd.toNat? with
+          | some t, some i, some c, some d => some (.add t (i % 65536 + 65536 * d) c) | _, _, _, _ => none
         | "cut", [] => some .cut
         | "appiin", [b] => b.toNat?.map fun b => .setScript fun sc => { sc with appIin := b }
         | "ctl", [l] => ((l.splitOn ",").mapM String.toNat?).map fun l => .setScript fun sc => { sc with ctl := l, ctlPos := 0 }
